@@ -2,6 +2,7 @@ package schist
 
 import (
 	"fmt"
+	"strings"
 
 	"0chain.net/chaincore/transaction"
 	"0chain.net/core/config"
@@ -144,6 +145,7 @@ func monC05(h *Hist, o *TxnObs) {
 			}
 		}
 		h.C("C05", "probe_calls_with_known_transfers")
+		monC05Queue(h, o, steps)
 	}
 	if o.Outcome == "rejected" {
 		if !o.Delta.Empty() {
@@ -166,6 +168,62 @@ func monC05(h *Hist, o *TxnObs) {
 	}
 	if plus != minus {
 		h.V("C05", "non-zero-sum-transfer", fmt.Sprintf("credits %d != debits %d in one txn", plus, minus), o)
+	}
+}
+
+// monC05Queue replays the known queue of an APPLIED probe call in queue order on the balances of the pre-state (the contract's
+// transfers, then the fee): a transfer above its source's balance at its turn, or one that overflows its destination, must have
+// failed the whole transaction.
+func monC05Queue(h *Hist, o *TxnObs, steps []world.ProbeStep) {
+	sender := o.Txn.ClientID
+	if sender != strings.ToLower(sender) {
+		return // respelled sender: the account of the transfers is not the string
+	}
+	bal := map[string]uint64{}
+	get := func(id string) uint64 {
+		if v, ok := bal[id]; ok {
+			return v
+		}
+		v, _ := h.Bal(o.Pre, id)
+		bal[id] = v
+		return v
+	}
+	queue := make([]world.ProbeStep, 0, len(steps)+1)
+	for _, st := range steps {
+		f := world.ProbeAddress
+		if st.From == "sender" {
+			f = sender
+		}
+		queue = append(queue, world.ProbeStep{From: f, To: st.To, Amount: st.Amount})
+	}
+	queue = append(queue, world.ProbeStep{From: sender, To: minersc.ADDRESS, Amount: uint64(o.Txn.Fee)})
+	h.C("C05", "applied_queues_replayed_in_order")
+	for i, st := range queue {
+		if st.Amount == 0 {
+			continue
+		}
+		if st.From == st.To || st.To != strings.ToLower(st.To) {
+			return // not a transfer the statement speaks about
+		}
+		fb, tb := get(st.From), get(st.To)
+		if fb < st.Amount {
+			h.C("C05", "applied_queue_with_uncovered_transfer")
+			h.V("C05", "transfer-above-source-balance-at-its-turn-applied", fmt.Sprintf("applied transaction: queued transfer #%d of %d moves %d from %s whose balance at its turn is %d (queue order, pre-state balances)", i+1, len(queue), st.Amount, h.name(st.From), fb), o)
+			return
+		}
+		if tb+st.Amount < tb {
+			h.V("C05", "transfer-overflowing-destination-applied", fmt.Sprintf("applied transaction: queued transfer #%d adds %d to %s holding %d", i+1, st.Amount, h.name(st.To), tb), o)
+			return
+		}
+		bal[st.From] = fb - st.Amount
+		bal[st.To] = get(st.To) + st.Amount
+	}
+	// the applied queue was fully covered: the post balances are exactly the replayed ones
+	for id, want := range bal {
+		if got, _ := h.Bal(o.Post, id); got != want {
+			h.V("C05", "applied-queue-result-differs-from-replay", fmt.Sprintf("account %s holds %d after the transaction, the queue replayed in order gives %d", h.name(id), got, want), o)
+			return
+		}
 	}
 }
 
